@@ -1,7 +1,7 @@
 (* C16 -- TCP acknowledgements are cumulative and correct; all data gets through.
    Only statements, closed by the lemma that proves them, and their assumptions. *)
 From Coq Require Import ZArith QArith List.
-From ONL Require Import Tcp.Sink Tcp.SinkProofs Tcp.Sender Tcp.SenderProofs Tcp.Loop Tcp.LoopProofs.
+From ONL Require Import Tcp.Sink Tcp.SinkProofs Tcp.Sender Tcp.SenderProofs Tcp.Loop Tcp.LoopProofs Tcp.LoopLive Tcp.LoopLossfree.
 Import ListNotations.
 Open Scope Z_scope.
 
@@ -119,3 +119,58 @@ Theorem C16_lossfree_no_retransmit_partial : forall fx c s e s' o id z,
   (exists pid sample orc, e = EAck id pid sample orc /\ id = last_ack s /\ 3 <= dupack s + 1).
 Proof. exact retransmission_needs_expiry_or_third_dup. Qed.
 Print Assumptions C16_lossfree_no_retransmit_partial.
+
+(* ------------------------------------------------------------------------------------------------ *)
+(* Towards liveness.  (a) Everything but transmitting is finite work: after k agenda steps,
+   k <= 3 + flow size + 10 * (data packets handed to the data path so far); so the runner can only
+   run out of fuel by transmitting that often. *)
+Theorem C16_work_bounded_by_transmissions : forall lc cw ss rtt0 orc k st,
+  lc_ok2 lc -> (zq (mss (lc_cfg lc)) <= cw)%Q -> (0 < rtt0)%Q -> fsize (lc_cfg lc) <> 0 ->
+  lsteps lc k (linit cw ss rtt0 orc) st ->
+  Z.of_nat k <= 3 + fsize (lc_cfg lc) + 10 * Z.of_nat (l_n1 st).
+Proof. exact loop_work_bounded. Qed.
+Print Assumptions C16_work_bounded_by_transmissions.
+
+Theorem C16_out_of_fuel_needs_transmissions : forall lc cw ss rtt0 orc fuel st,
+  lc_ok2 lc -> (zq (mss (lc_cfg lc)) <= cw)%Q -> (0 < rtt0)%Q -> fsize (lc_cfg lc) <> 0 ->
+  lrun fuel lc (linit cw ss rtt0 orc) = LFuel st ->
+  Z.of_nat fuel <= 3 + fsize (lc_cfg lc) + 10 * Z.of_nat (l_n1 st).
+Proof. exact loop_out_of_fuel_needs_transmissions. Qed.
+Print Assumptions C16_out_of_fuel_needs_transmissions.
+
+(* (b) lossfree_no_retransmit, in full: no drops, one-way delay d >= 0, initial RTT estimate rtt0 with
+   d < rtt0 (first RTO 2*rtt0 > RTT = 2d) and rtt0 <> 2d (then srtt never equals 2d and the RTO
+   stays strictly above the RTT; at rtt0 = 2d the estimator reaches RTO = RTT exactly and the timer wins
+   the same-instant race against the ACK).  In every reachable state the transmission log is
+   0, MSS, 2 MSS, ... : every segment is handed to the data path exactly once. *)
+Theorem C16_lossfree_no_retransmit : forall lc,
+  lc_ok2 lc -> lc_drop_data lc = [] -> lc_drop_ack lc = [] ->
+  forall (cw ss rtt0 : Q) (orc : list Q),
+  (zq (mss (lc_cfg lc)) <= cw)%Q -> (lc_delay lc < rtt0)%Q -> ~ (rtt0 == (2 # 1) * lc_delay lc)%Q ->
+  forall st, lreach lc (linit cw ss rtt0 orc) st ->
+  NoDup (map dl_id (l_d1 st)) /\
+  exists nN : nat, map dl_id (rev (l_d1 st)) = seg_ids (mss (lc_cfg lc)) 0 nN /\
+                   Z.of_nat nN * mss (lc_cfg lc) = next_seq (l_snd st) /\ l_n1 st = nN.
+Proof.
+  intros lc H1 H2 H3 cw ss rtt0 orc H4 H5 H6 st Hr. split.
+  - eapply lossfree_no_retransmit; eauto.
+  - eapply lossfree_transmissions; eauto.
+Qed.
+Print Assumptions C16_lossfree_no_retransmit.
+
+(* (c) reliable_delivery for the loss-free loop, with an explicit fuel bound: with more than
+   3 + 11 * size steps of fuel the runner ends quiescent (unless t_max cuts it short) with
+   last_ack = size, the sink holding exactly [0,size), and no segment sent twice *)
+Theorem C16_lossfree_terminates : forall lc,
+  lc_ok2 lc -> lc_drop_data lc = [] -> lc_drop_ack lc = [] ->
+  forall (cw ss rtt0 : Q) (orc : list Q),
+  (zq (mss (lc_cfg lc)) <= cw)%Q -> (lc_delay lc < rtt0)%Q -> ~ (rtt0 == (2 # 1) * lc_delay lc)%Q ->
+  forall fuel : nat, fsize (lc_cfg lc) <> 0 -> 3 + 11 * fsize (lc_cfg lc) < Z.of_nat fuel ->
+  match lrun fuel lc (linit cw ss rtt0 orc) with
+  | LQuiescent st => last_ack (l_snd st) = fsize (lc_cfg lc) /\ nse (l_sink st) = fsize (lc_cfg lc) /\
+                     sink_prefix (l_sink st) (fsize (lc_cfg lc)) /\ NoDup (map dl_id (l_d1 st))
+  | LStopped st => exists a rest, l_agenda st = a :: rest /\ (lc_tmax lc <= ae_time a)%Q
+  | LFuel _ | LRaised _ _ => False
+  end.
+Proof. exact lossfree_terminates. Qed.
+Print Assumptions C16_lossfree_terminates.
